@@ -151,8 +151,10 @@ static void derive(uint64_t base, uint64_t index, int catalogue, BlocksShape &sh
   }
   sh.set = (uint32_t)r.below((uint64_t)catalogue);
   sh.maxn = 120;
-  static const unsigned long cuts[] = {1, 8, 16, 64, 256, 1024, 1ul << 20};
-  sh.cut = cuts[r.below(7)];
+  // eleven cut sizes: with catalogue sets of at most 120 short strings only the last two regularly give a
+  // single block, so about four runs in five have block boundaries, ordering and completion to get wrong
+  static const unsigned long cuts[] = {1, 4, 8, 16, 32, 64, 128, 256, 512, 1024, 1ul << 20};
+  sh.cut = cuts[r.below(11)];
   bool small = r.chance(1, 2);
   sh.threads = small ? (int)r.range(1, 2) : (int)r.range(1, 6);
   static const int ovs[] = {0, 10, 20, 50, 100};
